@@ -59,6 +59,8 @@ def run(ctx):
     res = tlc.run('MC_GreenEvent', 'MC_GreenEvent_%d.cfg' % n, workdir=ctx.work, workers=8, coverage=True,
                   stdout_path=os.path.join(ctx.work, 'ge.out'))
     ctx.tlc(res, 'GreenEvent: UntimedNeverFalse, NoLostWakeup, TrueNeedsSet, BlockedOnUnsent over every interleaving')
+    live = tlc.run('MC_GreenEvent', 'MC_GreenEvent_live.cfg' if ctx.quick else 'MC_GreenEvent_live5.cfg', workdir=ctx.work, workers=8, parse=False)
+    ctx.tlc(live, 'GreenEvent under fairness: EventuallyReleased, EventuallyQuiescent (liveness)', counts_as_states=False)
     allowed = {}
     for rec in res.records:
         key = (tuple(rec['script']), rec['tmo2'])
